@@ -66,6 +66,7 @@ type Case struct {
 	ENil      bool     `json:"event_nil,omitempty"`
 	Beh       string   `json:"beh,omitempty"`           // ok fail0 failhalf failfull shorthalf short0 over
 	WFunc     bool     `json:"writer_func,omitempty"`   // the accepting writer is a func value (value receiver) instead of a pointer
+	Redirect  bool     `json:"redirect,omitempty"`      // f (stdout / stderr kinds): an earlier call on the same sink went to another stream; os.Stdout / os.Stderr was re-pointed in between
 	Seq       []string `json:"seq,omitempty"`           // w: this call is the last of a sequence on ONE sink; behaviours of the earlier calls
 	Stagger   int      `json:"stagger_ms,omitempty"`    // g: caller i enters Process i*stagger ms after the barrier (overlapping, not simultaneous)
 	TimeoutNs int64    `json:"timeout_ns,omitempty"`    // h g: the configured timeout in nanoseconds when it is not a whole number of ms (overrides timeout)
@@ -520,17 +521,49 @@ func execF(c Case, scratch string) (res int, got []int, skipped bool) {
 		}
 		stdMu.Lock()
 		defer stdMu.Unlock()
-		if c.FKind == 1 || c.FKind == 6 || c.FKind == 8 {
+		isOut := c.FKind == 1 || c.FKind == 6 || c.FKind == 8
+		point := func(f *os.File) {
+			if isOut {
+				os.Stdout = f
+			} else {
+				os.Stderr = f
+			}
+		}
+		if isOut {
 			fs.Path = "/dev/stdout"
 			old := os.Stdout
-			os.Stdout = tmp
 			defer func() { os.Stdout = old }()
 		} else {
 			fs.Path = "/dev/stderr"
 			old := os.Stderr
-			os.Stderr = tmp
 			defer func() { os.Stderr = old }()
 		}
+		if c.Redirect {
+			// the stream is re-pointed (output capture / redirection) BETWEEN two calls on the same sink: an earlier call went to another
+			// file; the call under observation must reach the stream that is current when it is made, and the earlier file must hold
+			// exactly the earlier value
+			first, err := os.Create(filepath.Join(dir, "std-before"))
+			if err != nil {
+				panic(err)
+			}
+			point(first)
+			pre := c
+			pre.Table, pre.Fmt = []Entry{{1, []int{80, 82, 69, 10}}}, 0
+			keepFmt := fs.Format
+			fs.Format = ""
+			preRes, _ := processOn(fs, pre, nil)
+			fs.Format = keepFmt
+			first.Sync()
+			got, _ := os.ReadFile(filepath.Join(dir, "std-before"))
+			defer func() {
+				after, _ := os.ReadFile(filepath.Join(dir, "std-before"))
+				first.Close()
+				if preRes != 0 || string(got) != "PRE\n" || string(after) != "PRE\n" {
+					res = 3 // the earlier call failed, or bytes of the later call went to the earlier stream
+				}
+			}()
+		}
+		point(tmp)
 		readBack = func() []byte {
 			tmp.Sync()
 			b, _ := os.ReadFile(filepath.Join(dir, "std"))
@@ -1449,6 +1482,14 @@ func genF(e *emitter) {
 		for _, fm := range []int{0, 1, 2, 4} {
 			for _, t := range tables {
 				e.run(Case{Kind: "f", Gen: "exhaustive", FKind: kind, Fmt: fm, Table: t})
+			}
+		}
+	}
+	// os.Stdout / os.Stderr re-pointed between two calls on one sink (healthy, /dev/full and closed destinations for the second call)
+	for _, kind := range []int{1, 2, 6, 7, 8, 9} {
+		for _, fm := range []int{0, 1, 2, 4} {
+			for _, t := range tables {
+				e.run(Case{Kind: "f", Gen: "redirected", FKind: kind, Fmt: fm, Table: t, Redirect: true})
 			}
 		}
 	}
